@@ -106,7 +106,7 @@ macro_rules! observe {
 		let byrva: Vec<String> = $rvas.iter().map(|r| idx(v.section_headers().by_rva(*r).map(|s| &**s))).collect();
 		let byname: Vec<String> = $names.iter().map(|n| idx(v.section_headers().by_name(&n[..]).map(|s| &**s))).collect();
 		format!("acc={} soi={} soh={} base={} stored_csum={} dirs={} secs={} csum={} byrva={} byname={}",
-			acc.join(","), soi, soh, ib, cs, join(&dirs, ";"), join(&secs, ";"), v.headers().check_sum(), join(&byrva, ","), join(&byname, ","))
+			acc.join(","), soi, soh, ib, cs, join(&dirs, ";"), join(&secs, ";"), if $blen > (1 << 20) { "skip".to_string() } else { v.headers().check_sum().to_string() }, join(&byrva, ","), join(&byname, ","))
 	}};
 }
 
